@@ -35,102 +35,84 @@ pub(crate) fn any_tag() -> TLVTag {
 /// The writers pick the smallest width that holds the value, so even this has value-dependent
 /// offsets (measured: u8 1 s, u16 5 s, three kinds in one harness 78 s) - hence one harness per
 /// kind (with a context tag) and one per tag form (with a u8 / u64 value).
-fn rt_scalar(tag: TLVTag, kind: u8) {
-    let v = any_u64();
-    let mut buf = [0u8; 18];
-    let mut wb = WriteBuf::new(&mut buf);
-    let r = match kind {
-        0 => wb.u8(&tag, v as u8),
-        1 => wb.u16(&tag, v as u16),
-        2 => wb.u32(&tag, v as u32),
-        3 => wb.u64(&tag, v),
-        4 => wb.i8(&tag, v as i8),
-        5 => wb.i16(&tag, v as i16),
-        6 => wb.i32(&tag, v as i32),
-        7 => wb.i64(&tag, v as i64),
-        8 => wb.bool(&tag, v & 1 == 1),
-        _ => wb.null(&tag),
-    };
-    vok!(r, "write-into-large-enough-buffer-succeeds");
-    let len = wb.get_tail();
-    vassert!(len <= 17, "ROLE:scalar-encoding-at-most-1+8+8-bytes");
-    let e = TLVElement::new(&buf[..len]);
-    vassert!(e.tag().ok() == Some(tag.clone()), "ROLE:tag-roundtrip");
-    match kind {
-        0 => vassert!(e.u8().ok() == Some(v as u8), "ROLE:u8-roundtrip"),
-        1 => vassert!(e.u16().ok() == Some(v as u16), "ROLE:u16-roundtrip"),
-        2 => vassert!(e.u32().ok() == Some(v as u32), "ROLE:u32-roundtrip"),
-        3 => vassert!(e.u64().ok() == Some(v), "ROLE:u64-roundtrip"),
-        4 => vassert!(e.i8().ok() == Some(v as i8), "ROLE:i8-roundtrip"),
-        5 => vassert!(e.i16().ok() == Some(v as i16), "ROLE:i16-roundtrip"),
-        6 => vassert!(e.i32().ok() == Some(v as i32), "ROLE:i32-roundtrip"),
-        7 => vassert!(e.i64().ok() == Some(v as i64), "ROLE:i64-roundtrip"),
-        8 => vassert!(e.bool().ok() == Some(v & 1 == 1), "ROLE:bool-roundtrip"),
-        _ => vassert!(e.null().is_ok(), "ROLE:null-roundtrip"),
-    }
-    // (no `container_len()` here: with a value-dependent element type the container walker is
-    // unwound to the bound on infeasible paths - the decoded length is checked on arbitrary
-    // bytes against a reference in tlv_read.rs instead)
-    vcover!(len > 2);
-}
-
+/// (No `container_len()` here: with a value-dependent element type the container walker is
+/// unwound to the bound on infeasible paths - the decoded length is checked on arbitrary bytes
+/// against a reference in tlv_read.rs instead.)
 macro_rules! rt_harness {
-    ($name:ident, $tag:expr, $kind:expr) => {
+    ($name:ident, $tag:expr, $write:ident, $read:ident, $ty:ty, $role:literal) => {
         #[cfg_attr(kani, kani::proof)]
         #[cfg_attr(kani, kani::unwind(20))]
         #[cfg_attr(not(kani), test)]
         fn $name() {
-            rt_scalar($tag, $kind);
+            let tag: TLVTag = $tag;
+            let v = any_u64();
+            let mut buf = [0u8; 18];
+            let mut wb = WriteBuf::new(&mut buf);
+            vok!(wb.$write(&tag, v as $ty), "write-into-large-enough-buffer-succeeds");
+            let len = wb.get_tail();
+            vassert!(len <= 17, "ROLE:scalar-encoding-at-most-1+8+8-bytes");
+            let e = TLVElement::new(&buf[..len]);
+            vassert!(e.tag().ok() == Some(tag.clone()), "ROLE:tag-roundtrip");
+            vassert!(e.$read().ok() == Some(v as $ty), $role);
+            vcover!(len >= 2);
         }
     };
 }
-// every scalar kind under a context tag
-rt_harness!(c16_q_roundtrip_ctx_u8, TLVTag::Context(any_u8()), 0);
-rt_harness!(c16_q_roundtrip_ctx_u16, TLVTag::Context(any_u8()), 1);
-rt_harness!(c16_q_roundtrip_ctx_u32, TLVTag::Context(any_u8()), 2);
-rt_harness!(c16_q_roundtrip_ctx_u64, TLVTag::Context(any_u8()), 3);
-rt_harness!(c16_q_roundtrip_ctx_i8, TLVTag::Context(any_u8()), 4);
-rt_harness!(c16_q_roundtrip_ctx_i16, TLVTag::Context(any_u8()), 5);
-rt_harness!(c16_q_roundtrip_ctx_i32, TLVTag::Context(any_u8()), 6);
-rt_harness!(c16_q_roundtrip_ctx_i64, TLVTag::Context(any_u8()), 7);
-rt_harness!(c16_q_roundtrip_ctx_bool, TLVTag::Context(any_u8()), 8);
-rt_harness!(c16_q_roundtrip_ctx_null, TLVTag::Context(any_u8()), 9);
+// every integer kind under a context tag
+rt_harness!(c16_q_roundtrip_ctx_u8, TLVTag::Context(any_u8()), u8, u8, u8, "ROLE:u8-roundtrip");
+rt_harness!(c16_q_roundtrip_ctx_u16, TLVTag::Context(any_u8()), u16, u16, u16, "ROLE:u16-roundtrip");
+rt_harness!(c16_q_roundtrip_ctx_u32, TLVTag::Context(any_u8()), u32, u32, u32, "ROLE:u32-roundtrip");
+rt_harness!(c16_q_roundtrip_ctx_u64, TLVTag::Context(any_u8()), u64, u64, u64, "ROLE:u64-roundtrip");
+rt_harness!(c16_q_roundtrip_ctx_i8, TLVTag::Context(any_u8()), i8, i8, i8, "ROLE:i8-roundtrip");
+rt_harness!(c16_q_roundtrip_ctx_i16, TLVTag::Context(any_u8()), i16, i16, i16, "ROLE:i16-roundtrip");
+rt_harness!(c16_q_roundtrip_ctx_i32, TLVTag::Context(any_u8()), i32, i32, i32, "ROLE:i32-roundtrip");
+rt_harness!(c16_q_roundtrip_ctx_i64, TLVTag::Context(any_u8()), i64, i64, i64, "ROLE:i64-roundtrip");
 // every tag form with a u8 value (quick) ...
-rt_harness!(c16_q_roundtrip_tag_anonymous_u8, TLVTag::Anonymous, 0);
-rt_harness!(c16_q_roundtrip_tag_common16_u8, TLVTag::CommonPrf16(any_u16()), 0);
-rt_harness!(c16_q_roundtrip_tag_common32_u8, TLVTag::CommonPrf32(any_u32()), 0);
-rt_harness!(c16_q_roundtrip_tag_impl16_u8, TLVTag::ImplPrf16(any_u16()), 0);
-rt_harness!(c16_q_roundtrip_tag_impl32_u8, TLVTag::ImplPrf32(any_u32()), 0);
+rt_harness!(c16_q_roundtrip_tag_anonymous_u8, TLVTag::Anonymous, u8, u8, u8, "ROLE:u8-roundtrip");
+rt_harness!(c16_q_roundtrip_tag_common16_u8, TLVTag::CommonPrf16(any_u16()), u8, u8, u8, "ROLE:u8-roundtrip");
+rt_harness!(c16_q_roundtrip_tag_common32_u8, TLVTag::CommonPrf32(any_u32()), u8, u8, u8, "ROLE:u8-roundtrip");
+rt_harness!(c16_q_roundtrip_tag_impl16_u8, TLVTag::ImplPrf16(any_u16()), u8, u8, u8, "ROLE:u8-roundtrip");
+rt_harness!(c16_q_roundtrip_tag_impl32_u8, TLVTag::ImplPrf32(any_u32()), u8, u8, u8, "ROLE:u8-roundtrip");
 rt_harness!(
     c16_q_roundtrip_tag_fq48_u8,
-    TLVTag::FullQual48 {
-        vendor_id: any_u16(),
-        profile: any_u16(),
-        tag: any_u16(),
-    },
-    0
+    TLVTag::FullQual48 { vendor_id: any_u16(), profile: any_u16(), tag: any_u16() },
+    u8, u8, u8, "ROLE:u8-roundtrip"
 );
 rt_harness!(
     c16_q_roundtrip_tag_fq64_u8,
-    TLVTag::FullQual64 {
-        vendor_id: any_u16(),
-        profile: any_u16(),
-        tag: any_u32(),
-    },
-    0
+    TLVTag::FullQual64 { vendor_id: any_u16(), profile: any_u16(), tag: any_u32() },
+    u8, u8, u8, "ROLE:u8-roundtrip"
 );
 // ... and with the widest values (thorough)
-rt_harness!(c16_t_roundtrip_tag_anonymous_u64, TLVTag::Anonymous, 3);
-rt_harness!(c16_t_roundtrip_tag_common32_i64, TLVTag::CommonPrf32(any_u32()), 7);
+rt_harness!(c16_t_roundtrip_tag_anonymous_u64, TLVTag::Anonymous, u64, u64, u64, "ROLE:u64-roundtrip");
+rt_harness!(c16_t_roundtrip_tag_common32_i64, TLVTag::CommonPrf32(any_u32()), i64, i64, i64, "ROLE:i64-roundtrip");
 rt_harness!(
     c16_t_roundtrip_tag_fq64_u64,
-    TLVTag::FullQual64 {
-        vendor_id: any_u16(),
-        profile: any_u16(),
-        tag: any_u32(),
-    },
-    3
+    TLVTag::FullQual64 { vendor_id: any_u16(), profile: any_u16(), tag: any_u32() },
+    u64, u64, u64, "ROLE:u64-roundtrip"
 );
+
+/// bool and null under a context tag.
+#[cfg_attr(kani, kani::proof)]
+#[cfg_attr(kani, kani::unwind(20))]
+#[cfg_attr(not(kani), test)]
+fn c16_q_roundtrip_ctx_bool_null() {
+    let tag = TLVTag::Context(any_u8());
+    let b = any_bool();
+    let mut buf = [0u8; 4];
+    let mut wb = WriteBuf::new(&mut buf);
+    vok!(wb.bool(&tag, b), "write-into-large-enough-buffer-succeeds");
+    let len = wb.get_tail();
+    let e = TLVElement::new(&buf[..len]);
+    vassert!(len == 2 && e.tag().ok() == Some(tag.clone()), "ROLE:tag-roundtrip");
+    vassert!(e.bool().ok() == Some(b), "ROLE:bool-roundtrip");
+    let mut buf = [0u8; 4];
+    let mut wb = WriteBuf::new(&mut buf);
+    vok!(wb.null(&tag), "write-into-large-enough-buffer-succeeds");
+    let len = wb.get_tail();
+    let e = TLVElement::new(&buf[..len]);
+    vassert!(len == 2 && e.null().is_ok() && e.bool().is_err(), "ROLE:null-roundtrip");
+}
 
 /// Octet strings of 0..=4 bytes written through the `tlv()` writer with one of the four
 /// length-field widths, read back equal.
@@ -159,7 +141,6 @@ fn rt_string(w: u8) {
         vassert!(back[i] == data[i], "ROLE:string-bytes-roundtrip");
         i += 1;
     }
-    vassert!(TLVSequence(&buf[..len]).container_len().ok() == Some(len), "ROLE:written-length-equals-decoded-length");
     vcover!(n == 4);
     vcover!(n == 0);
 }
@@ -175,7 +156,7 @@ macro_rules! rt_string_harness {
 }
 rt_string_harness!(c16_q_roundtrip_string_len8, 0);
 rt_string_harness!(c16_q_roundtrip_string_len16, 1);
-rt_string_harness!(c16_t_roundtrip_string_len32, 2);
+rt_string_harness!(c16_q_roundtrip_string_len32, 2);
 rt_string_harness!(c16_q_roundtrip_string_len64, 3);
 
 /// `str()` writer (picks the smallest length width itself).
@@ -229,7 +210,7 @@ fn c16_t_roundtrip_struct_two_members() {
 #[cfg_attr(kani, kani::proof)]
 #[cfg_attr(kani, kani::unwind(12))]
 #[cfg_attr(not(kani), test)]
-fn c16_q_reencode_single_element_6() {
+fn c16_t_reencode_single_element_6() {
     let b: [u8; 6] = any_bytes::<6>();
     let len = any_usize();
     assume(len >= 1 && len <= 6);
